@@ -4,6 +4,7 @@ import (
 	"fmt"
 	"math"
 	"math/rand"
+	"sort"
 	"strings"
 
 	"github.com/robfig/soy/data"
@@ -62,9 +63,17 @@ func funcLength(v []data.Value) data.Value {
 	return data.Int(len(v[0].(data.List)))
 }
 
+// funcKeys lists the keys in sorted order, so that the same data always renders
+// the same text (the language leaves the order open).
 func funcKeys(v []data.Value) data.Value {
-	var keys data.List
-	for k := range v[0].(data.Map) {
+	var m = v[0].(data.Map)
+	var names = make([]string, 0, len(m))
+	for k := range m {
+		names = append(names, k)
+	}
+	sort.Strings(names)
+	var keys = make(data.List, 0, len(names))
+	for _, k := range names {
 		keys = append(keys, data.String(k))
 	}
 	return keys
